@@ -13,7 +13,8 @@ Over M5b `Controls` (post-solve pass, presolve pass without rules, change tracke
   * `reported_status_of_user_status` commanded Closed ⇒ reported Closed; commanded Open ⇒ reported Open unless
                                      `_internal_status = Closed` (pipes, pumps); valves: Closed/Open are reported as commanded
   * `reported_consistent`            the three combined, for a status control on a pipe/pump
-  * `presolve_first_group`, `presolve_sorted_by_backtrack`  the presolve pass serves the largest backtrack first and accepts
+  * `presolve_first_group`, `presolve_sorted_by_backtrack`, `presolve_equal_backtrack_by_priority`
+                                     the presolve pass serves the largest backtrack first (priority orders equal backtracks only) and accepts
                                      `sim_time − backtrack` as soon as a group changes something
   * `tank_threshold_partial_step`    a crossing level condition (cylinder) shortens the step by ⌊(h_cur − θ)·A/q⌋ s, the
                                      accepted value is within one second of flow past θ, and the action is already applied
@@ -180,6 +181,18 @@ example : changed [(0, .status)] [⟨.pipe, 0, 2, 0⟩] (postsolve (fun _ => tru
 theorem presolve_sorted_by_backtrack (due : List Due) : (sortDue due).Pairwise (fun a b => b.back ≤ a.back) := by
   have := sortBy_sorted (fun d : Due => - d.back) (sortBy (fun d : Due => (d.ctl.prio : Int)) due)
   exact this.imp (fun h => by omega)
+
+/-- ... and priority only orders controls of EQUAL backtrack (the second sort is stable): priority never takes precedence
+over time order -/
+theorem presolve_equal_backtrack_by_priority (due : List Due) :
+    (sortDue due).Pairwise (fun a b => a.back = b.back → a.ctl.prio ≤ b.ctl.prio) := by
+  have h1 : (sortBy (fun d : Due => (d.ctl.prio : Int)) due).Pairwise (fun a b => a.ctl.prio ≤ b.ctl.prio) :=
+    (sortBy_sorted (fun d : Due => (d.ctl.prio : Int)) due).imp (fun h => by exact_mod_cast h)
+  have := sortBy_stable (fun d : Due => - d.back) (fun a b : Due => a.ctl.prio ≤ b.ctl.prio) _ h1
+  exact this.imp (fun h e => h (by omega))
+
+/-- a low-priority control with backtrack 0 and a medium-priority limit control with backtrack 982: the limit control is served first -/
+example : (sortDue [⟨⟨0, 1, ⟨1, .user, 0⟩⟩, 0⟩, ⟨⟨1, 3, ⟨0, .internal, 0⟩⟩, 982⟩]).map (·.ctl.id) = [1, 0] := by decide +kernel
 
 /-- as soon as the first group (largest backtrack) changes something the tracker watches, the pass stops: the state the
 solve sees has that group's actions applied and the accepted time is `sim_time − backtrack` -/
